@@ -6,3 +6,7 @@ claim("C16", "runtime monitoring: exhaustive civil-day walk against a day-counte
       "Weekday, day of year (both directions), fractional year and leap flag are observed on every civil day -4712..6000 (thorough) at three instants of the day and compared with an independent day counter; monotonicity of year() is checked along the recorded day sequence. Sidereal time is observed on 1.6e5 (quick) / 3e6 (thorough) JDE including civil-midnight neighbours against the IAU 1982 expression and the library's own nutation.",
       "trusts the day-counter oracle and the IAU 1982 GMST expression; in 1582 after the reform both day-of-year numberings the property allows are accepted",
       "DESIGN.md section 3 C16")
+claim("C19", "runtime monitoring: exhaustive enumeration of the four finite calendars against independent reference models (epact Computus, molad/dehiyyot Hebrew calendar, tabular Islamic calendar)",
+      "Every Easter -4712..10000 and every Pesach 1..3000 in both tiers; every Moslem date 1..2500 AH and every civil date 622-07-16..3000-12-31 in the thorough tier (a fifth of the years plus all year edges in quick) are converted by the real functions and compared with reference calendars that share no formula with Meeus' recipes; weekday, ranges, month/year lengths, consecutive-day and round-trip clauses are observed on the results.",
+      "trusts the three reference calendars (self-checked on literature dates at start-up) and the day counter",
+      "DESIGN.md section 3 C19")
